@@ -249,7 +249,19 @@ def unbounded_stream(ctx):
             for a, f in forms.items():
                 ws[a] = f
             return wb
-        comp = ExcelCompiler(excel=book(data))
+        stored = k % 3 == 2       # a real .xlsx whose formula cells carry their stored results (repair f35c77a)
+        if stored:
+            from harness.props.c12 import write_xlsx_cells
+            ref = ExcelCompiler(excel=book(data))
+            results = {f'S!{a}': ref.evaluate(f'S!{a}') for a in forms}
+            path = os.path.join(ctx.work, f'unbounded{k}.xlsx')
+            os.makedirs(ctx.work, exist_ok=True)
+            write_xlsx_cells([('S', dict(data, **forms))], results, path)
+            comp = ExcelCompiler(filename=path)
+            for a in sorted(forms):       # every cell enters the model before the first write (a cell built after
+                comp.evaluate(f'S!{a}')   # a write keeps its stored result: known finding C01-stored-late-build)
+        else:
+            comp = ExcelCompiler(excel=book(data))
         cur = dict(data)
         hist = []
         for step in range(rng.randrange(5, 10)):
@@ -264,7 +276,7 @@ def unbounded_stream(ctx):
             else:
                 a = rng.choice(sorted(forms))
                 hist.append(['eval', a])
-                case = dict(call='unbounded', data=data, formulas=forms, history=list(hist))
+                case = dict(call='unbounded', data=data, formulas=forms, history=list(hist), stored_results=stored)
                 try:
                     got = canon(comp.evaluate(f'S!{a}'))
                     want = canon(ExcelCompiler(excel=book(cur)).evaluate(f'S!{a}'))
